@@ -245,8 +245,8 @@ func (m *Machine) yield(g *G) {
 
 // syncPoint is called at synchronisation operations in exploration mode to allow a context switch.
 func (m *Machine) syncPoint(fr *Frame) {
-	if !m.exploreSched {
-		return
+	if !m.exploreSched || m.initDepth > 0 {
+		return // package initialisers run atomically
 	}
 	g := m.cur
 	g.state = gRunnable
